@@ -289,6 +289,7 @@ def run(ctx):
     ctx.guarded("R-C03-exits", exits, ctx, prog)
     ctx.guarded("R-C03-config", config_args, ctx, prog)
     ctx.guarded("R-C03-panic", duplicates_key, ctx, prog)
+    ctx.guarded("R-C03-handle", disconnection_is_last, ctx, prog)
 
 
 # ------------------------------------------------------------------------------------------
@@ -625,3 +626,26 @@ def duplicates_key(ctx, prog):
                           "check_tracker_duplicates judges duplicates by DataRequest.%s while the guard the audit relies on (connection.subscriptions.insert) is keyed by the subscription path: `t` and `$share/g/t` are two subscriptions with ONE %s, "
                           "so a client that sends both in one read fails `debug_assert!(check_tracker_duplicates(id).is_none())` in prepare_filter and — in a build with debug assertions — ends the router thread" % (k, k),
                           site=b.loc(t.get("sp")))
+
+
+def disconnection_is_last(ctx, prog):
+    """handle_device_payload defers the disconnection of the connection it is reading to the end (flag). Everything
+    that still names a connection by id - the drain of Router.notifications into Scheduler::track / reschedule (which
+    unwrap / index the tracker slab) - has to happen BEFORE the deferred handle_disconnection: the batch that sets
+    the flag may also have woken a parked request of the very connection that is then removed (a client subscribed
+    to the topic it publishes on, PUBLISH + DISCONNECT in one read)."""
+    rule = "R-C03-handle"
+    f = prog.one(r"^router::routing::Router::handle_device_payload$")
+    dis = [(bb, t) for bb, t in f.calls() if callee_path(t).endswith("Router::handle_disconnection") and not f.is_cleanup(bb)]
+    ctx.floor(rule, "deferred handle_disconnection calls in handle_device_payload", len(dis), 1)
+    for bb, t in dis:
+        after = reachable_after(f, [bb])
+        bad = [(b2, t2) for b2, t2 in f.calls() if b2 in after and not f.is_cleanup(b2)
+               and re.search(r"router::scheduler::Scheduler::(track|reschedule|pause|trackv)$|router::routing::Router::(consume|prepare_filter)$", callee_path(t2))]
+        if bad:
+            b2, t2 = bad[0]
+            ctx.violation(rule, f.id, "scheduler used after the deferred disconnection",
+                          "handle_device_payload calls %s on a path after handle_disconnection removed the connection: a request of that connection woken by the same batch names a vacant tracker slot (unwrap / index panic in the router thread)" % callee_path(t2).split("::", 2)[-1],
+                          site=f.loc(t2.get("sp")))
+        else:
+            ctx.ok(rule, f.id, "the deferred handle_disconnection is the last scheduler-affecting action of handle_device_payload", site=f.loc(t.get("sp")))
